@@ -13,7 +13,7 @@ from spec import frames as F
 
 LEVEL = "model_checking"
 RULE = ("three depth-bounded exhaustive explorations, every edge one real process_raw() call on a deep copy of the "
-        "parent table: (1) positions - one aircraft on 8 scripted trajectories (NL transitions, equator, antimeridian, "
+        "parent table: (1b) batches of 1-2 position messages of two aircraft 540 NM apart per call, all sequences of 3 (4) calls; (1) positions - one aircraft on 8 scripted trajectories (NL transitions, equator, antimeridian, "
         "lon 0, high latitude, take-off, taxi across the equator), events {even, odd} x gaps either side of every "
         "threshold (10 s, 180 s) plus a 1500 s gap that outruns the 180 NM reference range; (2) listing / Comm-B gating - two aircraft x {ident, position, BDS50, BDS60} x "
         "gaps around 59/61 s, upper- and lower-case tables advanced in lockstep; (3) robustness - all ordered pairs "
@@ -22,7 +22,7 @@ RULE = ("three depth-bounded exhaustive explorations, every edge one real proces
 ASSUMPTIONS = [
     "trajectories stay below |lat| 86.4 deg: beyond that the CPR longitude quantum itself exceeds 0.001 deg",
     "stored longitude is compared modulo 360 (position_with_ref may legitimately return lon outside [-180,180))",
-    "one message per process_raw call, tnow = message time (the order of ADS-B vs Comm-B inside one batch is not explored)",
+    "explorations 1-3 use one message per process_raw call, tnow = message time; exploration 1b feeds batches of 1-2 ADS-B messages of two distant aircraft per call (the order of ADS-B vs Comm-B inside one batch is not explored)",
     "last-heard time of the reference counts a Comm-B message only if the aircraft was listed when it arrived",
     "surface phases use realistic speeds (<= 40 kt taxi) and a receiver within 30 NM",
 ]
@@ -164,6 +164,87 @@ def replay_positions(name, events):
             dlat, dlon = abs(ac["lat"] - lat), C.lon_diff(ac["lon"], lon)
             if dlat > 0.001 or dlon > 0.001:
                 return "table:stored_position_off_by_more_than_0.001deg:%s:%s" % (name, "lat" if dlat > 0.001 else "lon")
+    return None
+
+
+# ------------------------------------------------------------------ exploration 1b: batches of several messages per call
+BT = {"A": Traj("batch_A_450kt", 52.3, 4.8, 45, 450), "B": Traj("batch_B_450kt", 50.1, 19.0, 290, 450)}
+BICAO = {"A": 0x4840D6, "B": 0x3C6444}
+BKINDS = [("A", 0), ("A", 1), ("B", 0), ("B", 1)]
+BATCHES = [(k,) for k in BKINDS] + [(a, b) for a in BKINDS for b in BKINDS if a != b]
+
+
+def batch_msg(who, oe, t):
+    tr = BT[who]
+    lat, lon = tr.pos(t)
+    e = C.encode(Fr(lat), Fr(lon), oe)
+    return F.es(C.me_airborne(11, 0xC38, oe, e["yz"], e["xz"]), BICAO[who], 5, 17)
+
+
+def batch_step(d, now, batch):
+    """one process_raw call carrying 1-2 ADS-B messages 0.3 s apart; returns (decode, now', exc, [(who, t_msg)])."""
+    ts, ms, info = [], [], []
+    for i, (who, oe) in enumerate(batch):
+        t = now + 1.0 + 0.3 * i
+        ts.append(t)
+        ms.append(batch_msg(who, oe, t))
+        info.append((who, t))
+    d2 = copy.deepcopy(d)
+    try:
+        d2.process_raw(ts, ms, [], [], tnow=ts[-1] + 0.2)
+        exc = None
+    except Exception as e:  # noqa: BLE001
+        exc = type(e).__name__
+    return d2, now + 1.0, exc, info
+
+
+def batch_inv(d, exc, info):
+    if exc:
+        return "table:process_raw_raises:%s" % exc
+    last = {}
+    for who, t in info:
+        last[who] = t
+    for who, t in last.items():
+        ac = d.acs.get("%06X" % BICAO[who])
+        if ac is None:
+            return "table:aircraft_missing_right_after_its_message"
+        if ac.get("tpos") == t and ac.get("lat") is not None:
+            lat, lon = BT[who].pos(t)
+            if abs(ac["lat"] - lat) > 0.001 or C.lon_diff(ac["lon"], lon) > 0.001:
+                return "table:stored_position_off_by_more_than_0.001deg:batch_of_several_messages"
+    return None
+
+
+def run_batches(first, depth, acc):
+    viols = []
+    n = 0
+    states = set()
+
+    def rec(d, now, trace, rem):
+        nonlocal n
+        for b in ([first] if not trace else BATCHES):
+            d2, now2, exc, info = batch_step(d, now, b)
+            n += 1
+            s = batch_inv(d2, exc, info)
+            tr = trace + [b]
+            if s:
+                if len(viols) < 20:
+                    viols.append((s, tr))
+                continue
+            states.add(hash((round(now2, 3), canon(d2.acs))))
+            if rem > 1:
+                rec(d2, now2, tr, rem - 1)
+    rec(Decode(), 0.0, [], depth)
+    return viols, len(states), n
+
+
+def replay_batches(batches):
+    d, now = Decode(), 0.0
+    for b in batches:
+        d, now, exc, info = batch_step(d, now, tuple(tuple(x) for x in b))
+        s = batch_inv(d, exc, info)
+        if s:
+            return s
     return None
 
 
@@ -383,6 +464,12 @@ def w_any(task):
         if prefix and prefix[0] == (0, 0.4) and len(prefix) > 1 and prefix[1] == (1, 4):
             acc.samples.append({"exploration": "positions", "traj": name, "prefix": [list(p) for p in prefix], "depth": depth,
                                 "first_msg": pos_msg(TRAJ[name], 0.4, 0)})
+    elif kind == "batch":
+        _, first, depth = task
+        v, s, tr = run_batches(first, depth, acc)
+        for sig, trace in v:
+            acc.bad(sig, {"kind": "batch", "batches": [[list(x) for x in b] for b in trace]})
+        acc.out.add(("batch", first))
     elif kind == "list":
         _, prefix, depth, kinds, gaps = task
         v, s, tr = run_listing(prefix, depth, kinds, gaps, acc)
@@ -420,6 +507,8 @@ def run(ctx):
     for a in ev2:
         for b in ev2:
             tasks.append(("list", (a, b), d2, kinds, gaps))
+    for b in BATCHES:
+        tasks.append(("batch", b, 4 if ctx.thorough else 3))
     alpha = robust_alphabet(ctx.thorough)
     seeds = list(seed_states())
     for s in seeds:
@@ -443,6 +532,8 @@ def run(ctx):
 def replay(case):
     if case["kind"] == "pos":
         s = replay_positions(case["traj"], [tuple(e) for e in case["events"]])
+    elif case["kind"] == "batch":
+        s = replay_batches(case["batches"])
     elif case["kind"] == "list":
         s = replay_listing([tuple(e) for e in case["events"]])
     else:
